@@ -219,7 +219,10 @@ def _cold(case):
     import subprocess
     from vf.core import HERE, REPO, HarnessError
     env = dict(os.environ, PYTHONPATH="%s:%s" % (REPO, HERE), PYTHONHASHSEED="0")
-    q = dict(jobs=case["jobs"], threads=case["threads"], rounds=case["rounds"], rotate=case.get("rotate", True))
+    import re as _re
+    sizes = [len(j["text"]) - 3 for j in case["jobs"] if j["kind"] == "enc" and _re.fullmatch(r"C1C+1", j["text"])]
+    q = dict(jobs=case["jobs"], threads=case["threads"], rounds=case["rounds"], rotate=case.get("rotate", True),
+             scan_rings=(max(sizes) + 3 if sizes else 0))
     p = subprocess.run([sys.executable, "-m", "vf.coldstress"], input=json.dumps(q).encode(), stdout=subprocess.PIPE,
                        stderr=subprocess.PIPE, env=env, timeout=600)
     if p.returncode != 0:
@@ -233,7 +236,12 @@ def _cold(case):
     elif out["mismatches"]:
         m = out["mismatches"][0]
         fail = Fail("cold:concurrent_differs_from_serial:" + m["job"]["kind"], **m)
-    else:
+    if fail is None:
+        for n, got in enumerate(out.get("ring_scan", []), start=1):
+            if got != _ring_expected(n):
+                fail = Fail("cold:table_corrupted_by_concurrent_first_use:enc", ring_n=n, got=str(got)[-160:], want=_ring_expected(n)[-160:])
+                break
+    if fail is None:
         # a race may corrupt a shared table for good, so that the serial run *after* it agrees with the wrong
         # concurrent results: compare with a serial run in this (other) process as well
         import json as _json
@@ -329,7 +337,7 @@ def gen_cold(ch):
         elif w == 1:
             jobs.append(dict(kind="dec", text=ch.pick(DEC_POOL).replace("{u}", "13"), flags=dict(attribute=ch.bool(30))))
         elif w == 2:
-            n = ch.weighted([(3, ch.int(3, 40)), (2, ch.int(40, 300))])
+            n = ch.weighted([(3, ch.int(3, 40)), (2, ch.int(40, 140))])
             jobs.append(dict(kind="enc", text="C1" + "C" * n + "1", flags={}))
         elif w == 3:
             n = ch.weighted([(3, ch.int(1, 40)), (2, ch.int(40, 300))])
@@ -352,6 +360,6 @@ def gen_stress(ch):
 
 
 def shard(ctx):
-    ctx.drive("schedules", gen_case, ctx.n(400, 6000), max_bytes=700)
+    ctx.drive("schedules", gen_case, ctx.n(300, 6000), max_bytes=700)
     ctx.drive("stress", gen_stress, ctx.n(2, 20), max_bytes=64)
     ctx.drive("cold", gen_cold, ctx.n(8, 150), max_bytes=128)
